@@ -375,6 +375,16 @@ func (rt *runtimeS) quiesce() {
 	n, tops := census(true)
 	e := ev("Quiesce")
 	e.N = n
+	// goroutines running on behalf of server connections (innermost goat frame in *handler / *Server)
+	for _, tp := range tops {
+		if strings.Contains(tp, "(*handler)") || strings.Contains(tp, "(*Server)") {
+			var k int
+			if i := strings.LastIndex(tp, "*"); i > 0 {
+				fmt.Sscanf(tp[i+1:], "%d", &k)
+			}
+			e.C += k
+		}
+	}
 	e.K = fmt.Sprintf("%d", rt.base)
 	e.X = strings.Join(tops, " ")
 	e.Code = npend
@@ -552,6 +562,9 @@ func (rt *runtimeS) step(st Step) {
 		case "cwrite":
 			p := rt.pipeOf(conn, "c2s")
 			p.with(func() { p.werr = errInjected; tr.emit(e) })
+		case "cwrite1": // exactly the next client write fails
+			p := rt.pipeOf(conn, "c2s")
+			p.with(func() { p.werr1 = true; tr.emit(e) })
 		case "sread":
 			p := rt.pipeOf(conn, "c2s")
 			p.with(func() { p.rerr = errInjected; tr.emit(e) })
